@@ -557,6 +557,19 @@ def install_contracts(ex, names):
         def fmt_errorf(ex, st, args, ins):
             ex.symctr += 1
             return Iface("opaque", ("errorf", ex.symctr))
+        def addr_string(ex, st, args, ins):
+            # net.Addr.String(): formatting of an address (package net internals): an arbitrary string, equal for the same receiver
+            key = ("addrstr", args[0].key() if args[0] is not None else None)
+            if key not in st.ghost:
+                n = ex.A.fresh(ex.fresh_name("addrstrlen"), 64, True)
+                st.pc.append(ex.A.cmp(">=", n, 0))
+                st.pc.append(ex.A.cmp("<=", n, 64))
+                base = ex.new_base("addrstr")
+                p = ex.alloc(st, Bytes(base, n), "as")
+                st.ghost[key] = SliceV(p, 0, n, n, True)
+            return st.ghost[key]
+        for tn in ("TCPAddr", "UDPAddr", "UnixAddr", "IPAddr"):
+            S["(*net.%s).String" % tn] = addr_string
         S["os.NewSyscallError"] = new_syscall_error
         S["errors.Is"] = errors_is
         S["fmt.Errorf"] = fmt_errorf
